@@ -11,7 +11,7 @@
    the real analyser (missing definition, array without items), compared with the implementation on every run.
    PARTIAL: that the recursion ends (no Fuel outcome with enough fuel, i.e. no unbounded recursion through references)
    is decided on the implementation only (worker processes observe fatal stack overflow and hangs). *)
-From GS Require Import Base.Str Gen.GenDiffTables Tools.DiffTypes Tools.DiffSpec Tools.DiffModel Tools.DiffModelLemmas Tools.DiffIdentity Tools.DiffTotal Tools.DiffExt Tools.DiffExtLemmas.
+From GS Require Import Base.Str Gen.GenDiffTables Tools.DiffTypes Tools.DiffSpec Tools.DiffModel Tools.DiffModelLemmas Tools.DiffIdentity Tools.DiffTotal Tools.DiffExt Tools.DiffExtLemmas Tools.DiffCycle.
 
 Theorem C12_total : forall fuel a b, closed_swaggerb a = true -> closed_swaggerb b = true -> analyse fuel a b <> Panic.
 Proof. exact analyse_total. Qed.
@@ -81,6 +81,36 @@ Definition sample_x : xdoc :=
                                                          xr_body := [(ref_to (s "Pet"), [])] |})] |})] |})] |}.
 Example C12_extensions_nonvacuous : wf_xdoc sample_x = true /\ analyse_all 12 sample_doc sample_doc sample_x sample_x = Ok [].
 Proof. split; vm_compute; reflexivity. Qed.
+
+(* circular references: a reference met under a location key that was already recorded is not followed — for any
+   definitions, circular or not — and the key of a location stays the same below its first child node, so that along one
+   path of the walk a reference of the first document is followed at most twice (once above, once below that node).
+   (That the recursion as a whole ends is still decided on the implementation: see PARTIAL above.) *)
+Theorem C12_visited_reference_is_cut : forall f d1 d2 l x1 x2 sta,
+  is_ref x1 = true -> is_ref x2 = true -> sc_ref x1 = sc_ref x2 -> mem (schema_location_key l) (visited sta) = true ->
+  compare_schema (S f) d1 d2 l x1 x2 sta = Ok ([], sta).
+Proof. exact visited_ref_is_cut. Qed.
+Print Assumptions C12_visited_reference_is_cut.
+
+Theorem C12_location_key_stable : forall l n c x,
+  l_node l = Some (Node (n_field n) (n_type n) (n_array n) (Some c)) -> schema_location_key (loc_add l x) = schema_location_key l.
+Proof. exact key_stable_below_first_child. Qed.
+Print Assumptions C12_location_key_stable.
+
+(* a definition that contains itself, directly and through an array, compared with a changed copy: the walk returns *)
+Definition node_def (extra : list (str * schema)) : schema :=
+  Schema [] [s "object"] [] [] no_vals None
+    ([(s "next", ref_to (s "Node")); (s "kids", Schema [] [s "array"] [] [] no_vals (Some (ref_to (s "Node"))) [] [] [])] ++ extra) [] [].
+Definition cyc_doc (extra : list (str * schema)) : swagger :=
+  {| sw_consumes := None; sw_produces := None; sw_schemes := None; sw_host := []; sw_basepath := []; sw_info_desc := [];
+     sw_paths := [(s "/n", {| pi_params := [];
+        pi_ops := [(s "get", {| o_tags := None; o_desc := []; o_deprecated := false; o_params := [];
+                                o_responses := [(200%Z, {| r_desc := s "ok"; r_schema := Some (ref_to (s "Node")); r_headers := [] |})] |})] |})];
+     sw_defs := [(s "Node", node_def extra)] |}.
+Example C12_circular_returns :
+  analyse 6 (cyc_doc []) (cyc_doc []) = Ok [] /\
+  exists ds, analyse 6 (cyc_doc []) (cyc_doc [(s "label", str_schema)]) = Ok ds /\ length ds = 2.
+Proof. split; [vm_compute; reflexivity|]. eexists. split; vm_compute; reflexivity. Qed.
 
 Theorem C12_compare_props_refl : forall x, compare_props x x = Ok [].
 Proof. exact compare_props_refl. Qed.
